@@ -413,7 +413,8 @@ def generic_run(pid, tier, seed, replay, keep, scenarios, rule, rule_text, assum
     wd = core.scratch("verif-gen-")
     try:
         if mode == "scenarios":
-            paths = props.run_scenarios_parallel(binary, scenarios, events, wd, par=min(props.NCPU, max(1, len(scenarios) // 2)))
+            paths = props.run_scenarios_parallel(binary, scenarios, events, wd, par=min(props.NCPU, max(1, len(scenarios) // 2)),
+                                                 timeout=1800 if tier == "quick" else 7200)   # (the thorough tier of C12 takes 20 min on an idle machine)
         else:
             parts = props.chunks(scenarios, min(props.NCPU, len(scenarios)))
             import concurrent.futures as cf
